@@ -663,8 +663,13 @@ CLAIMS = {
          "semicolons); Props/GoLex.lean PROVES lex_layout (on any layout of the printer's pieces - one blank per space, any indentation after a "
          "newline - whose tokens are each read back by lexTok, lex returns exactly the pieces' tokens, kinds and texts, with Go's automatic "
          "semicolons), lexTok_word/lexTok_ident/lexTok_kw (a well-formed identifier or keyword followed by a non-letter/digit is read back as "
-         "that token) and lex_render_tokens_partial (both, for layouts of identifiers/keywords separated by blanks/newlines). NOT proved at "
-         "character level: numbers, strings, operators and tokens written with nothing between them (glueFree => lexTok boundary); these are "
+         "that token), goIdent_wf (EVERY output of go_ident is such a well-formed identifier token, from goIdent_legal), lexTok_int (decimal digits "
+         "followed by a non-digit/letter/_/. are one num token), lexTok_op (each of Go's 47 operators followed by a character that does not extend it "
+         "to a longer operator or comment opener is that sym token: maximal munch, generic lemma take_not_longer + decide on the table) and "
+         "lex_render_tokens_partial / lex_render_tokens_spaced_partial (layouts of identifiers, keywords, decimal integers and operators each "
+         "followed by a blank/newline/end lex to exactly their tokens with the semicolons). NOT proved at "
+         "character level: floats, strings, and tokens written with nothing between them (glueFree => the per-kind boundaries; the pairwise "
+         "`glued` misses `.``.``.` = `...`, stated as an example); these are "
          "VALIDATED on every run: the real text of every item is lexed by Model/GoLex.lean and must give the token list of the model's Doc.pieces "
          "with the semicolons (expectToks), and harness/src/goparse.rs's tokenizer (second, independent lexer) must give the same kinds and texts "
          "(golex tie inside gv gopp). Dead-code elimination (go/dce.rs) has a "
